@@ -55,8 +55,23 @@ C_RecvConserve(e) == IsRecv(e) =>
                         ELSE e.v = 0 /\ e.rest = avail
 \* "A non-positive timeout means wait without limit"
 C_Unlimited(e) == e.early => Immediate(e)
+\* several callers racing for the same values / slots: conservation must hold for the group, nobody may block past its timeout,
+\* and nobody may report a value that was never sent ("a closed channel counts as false")
+TrueIdx(e) == {i \in 1..Len(e.oks) : e.oks[i]}
+C_RecvRace(e) == e.op = "RecvRace" =>
+   /\ e.nblocked = 0
+   /\ Cardinality(TrueIdx(e)) = Min(e.n, e.fill)
+   /\ \A i \in 1..Len(e.oks) : IF e.oks[i] THEN e.vs[i] \in 1..e.fill ELSE e.vs[i] = 0
+   /\ \A i, j \in TrueIdx(e) : i # j => e.vs[i] # e.vs[j]
+   /\ {e.vs[i] : i \in TrueIdx(e)} \cup Elems(e.rest) = 1..e.fill /\ Len(e.rest) = e.fill - Cardinality(TrueIdx(e))
+C_SendRace(e) == e.op = "SendRace" =>
+   /\ e.nblocked = 0
+   /\ Cardinality(TrueIdx(e)) = Min(e.n, e.cap - e.fill)
+   /\ Len(e.rest) = e.fill + Cardinality(TrueIdx(e))
+   /\ SubSeq(e.rest, 1, e.fill) = Vals(1, e.fill)
+   /\ {e.rest[i] : i \in (e.fill + 1)..Len(e.rest)} = {e.vs[i] : i \in TrueIdx(e)}
 C_NoPanic(e) == e.panic = ""
-All(e) == C_NoPanic(e) /\ C_NeverBlocks(e) /\ C_Queued(e) /\ C_QueuedPending(e) /\ C_Outcome(e) /\ C_SendConserve(e) /\ C_RecvConserve(e) /\ C_Unlimited(e)
+All(e) == C_RecvRace(e) /\ C_SendRace(e) /\ C_NoPanic(e) /\ C_NeverBlocks(e) /\ C_Queued(e) /\ C_QueuedPending(e) /\ C_Outcome(e) /\ C_SendConserve(e) /\ C_RecvConserve(e) /\ C_Unlimited(e)
 TInit == l = 1
 Step == l <= Len(Trace) /\ l' = l + 1 /\ (Gate => All(Ev))
 TSpec == TInit /\ [][Step]_vars
@@ -70,6 +85,8 @@ I_Outcome == Chk => C_Outcome(Obs)
 I_SendConserve == Chk => C_SendConserve(Obs)
 I_RecvConserve == Chk => C_RecvConserve(Obs)
 I_Unlimited == Chk => C_Unlimited(Obs)
+I_RecvRace == Chk => C_RecvRace(Obs)
+I_SendRace == Chk => C_SendRace(Obs)
 Track == TrackL(l)
 Accepted == AcceptedP
 ====
